@@ -1,6 +1,8 @@
 package donotsendfirstblocks
 
 import (
+	"errors"
+
 	"github.com/ipld/go-ipld-prime/datamodel"
 	"github.com/ipld/go-ipld-prime/node/basicnode"
 )
@@ -13,5 +15,8 @@ func EncodeDoNotSendFirstBlocks(skipBlockCount int64) datamodel.Node {
 
 // DecodeDoNotSendFirstBlocks returns the number of blocks to skip
 func DecodeDoNotSendFirstBlocks(data datamodel.Node) (int64, error) {
+	if data == nil {
+		return 0, errors.New("no do-not-send-first-blocks data")
+	}
 	return data.AsInt()
 }
